@@ -75,3 +75,166 @@ Proof.
   - destruct Hx as [Hx _]. specialize (Hx eq_refl). discriminate.
   - tauto.
 Qed.
+
+(** the decision of one target, in any uncrashed mode *)
+Definition skip_cond (c : bcfg) (w : world) (d : tdef) (r : rec) (vs : list (label * visit)) : bool :=
+  negb (c_always c) && deps_up_to_date r vs && up_to_date w d r && negb (r_rerun r || is_always d).
+
+Lemma step_target_cases c w l d r vs w' v evs ran :
+  c_crashed c = false -> first_failure vs = None ->
+  step_target c w l d r vs = (w', v, evs, ran) ->
+  (skip_cond c w d r vs = true /\ w' = w /\ v = mkVisit false (r_data r) (r_run r) ROk /\ evs = [EUpToDate l]) \/
+  (skip_cond c w d r vs = false /\ In (EEvaluating l) evs /\
+   (c_dry c = true -> w' = w /\ v = mkVisit true (r_data r) (r_run r) ROk) /\
+   (v_res v = ROk -> v_changed v = true)).
+Proof.
+  intros Hcr Hff. unfold step_target, skip_cond. rewrite Hff, Hcr. cbn [andb].
+  fold (is_always d).
+  destruct (negb (c_always c) && deps_up_to_date r vs && up_to_date w d r && negb (r_rerun r || is_always d)).
+  { intros Hst; inversion Hst; subst. left. repeat split. }
+  destruct (c_dry c).
+  { intros Hst; inversion Hst; subst. right. split; [reflexivity|]. split; [simpl; auto|].
+    split; [intros _; split; reflexivity|reflexivity]. }
+  destruct d as [deps srcs gens env k alw|p].
+  - destruct (mem l (c_fail c)); intros Hst; inversion Hst; subst; right; (split; [reflexivity|]);
+      (split; [simpl; auto|split; [discriminate|simpl; try discriminate; reflexivity]]).
+  - intros Hst; inversion Hst; subst. right. split; [reflexivity|]. split; [simpl; auto|]. split; [discriminate|reflexivity].
+Qed.
+
+Lemma forallb_ext_in' {A} (f g : A -> bool) l : (forall x, In x l -> f x = g x) -> forallb f l = forallb g l.
+Proof.
+  induction l as [|x l IH]; intros H; simpl; [reflexivity|].
+  rewrite (H x (or_introl eq_refl)), IH; [reflexivity|]. intros y Hy. apply H; right; exact Hy.
+Qed.
+
+Lemma mem_In_rev x l : In x l -> mem x l = true.
+Proof. intros H. unfold mem. apply existsb_exists. exists x. split; [exact H|apply N.eqb_refl]. Qed.
+
+(** the two worlds give the same up-to-date answer for an unvisited target whose dependencies are all unchanged *)
+Lemma up_to_date_psim pr w sd sr l d vsr :
+  psim pr w sd sr -> link_ok pr = true -> gens_unique pr ->
+  lookup l pr = Some d -> lookup l (b_vis sr) = None ->
+  dep_visits (b_vis sr) (deps_of pr d) = Some vsr ->
+  (forall dl vd, In (dl, vd) vsr -> v_changed vd = false) ->
+  up_to_date (b_w sr) d (rec_of w l) = up_to_date w d (rec_of w l).
+Proof.
+  intros P Hlink Hgu Hd Hl Hvs Hunch.
+  unfold up_to_date. destruct d as [deps srcs gens env k alw|p].
+  - destruct alw; [reflexivity|]. destruct (r_data (rec_of w l)); try reflexivity. f_equal.
+    unfold gens_exist. apply forallb_ext_in'. intros q Hq.
+    destruct (ps_files _ _ _ _ P q) as [->|(l' & d' & vr & Hl' & Hmem & Hv & _)]; [reflexivity|].
+    exfalso. assert (E : l' = l).
+    { apply (Hgu l' l d' (Fn deps srcs gens env k false) q Hl' Hd Hmem). simpl. apply mem_In_rev. exact Hq. }
+    subst l'. congruence.
+  - unfold file_sum.
+    destruct (ps_files _ _ _ _ P p) as [->|(l' & d' & vr & Hl' & Hmem & Hv & Hch)]; [reflexivity|].
+    exfalso. pose proof (generator_unique pr l' d' l p Hlink Hd Hl' Hmem) as Hg.
+    rewrite Hg in Hvs. cbn [dep_visits] in Hvs. rewrite Hv in Hvs. inversion Hvs; subst.
+    specialize (Hunch l' vr (or_introl eq_refl)). congruence.
+Qed.
+
+Lemma psim_witness_persist pr sr l v p :
+  lookup l (b_vis sr) = None ->
+  (exists l' d' vr, lookup l' pr = Some d' /\ mem p (def_gens d') = true /\
+                    lookup l' (b_vis sr) = Some vr /\ v_changed vr = true) ->
+  exists l' d' vr, lookup l' pr = Some d' /\ mem p (def_gens d') = true /\
+                   lookup l' (update l v (b_vis sr)) = Some vr /\ v_changed vr = true.
+Proof.
+  intros Hl (l' & d' & vr & H1 & H2 & H3 & H4). exists l', d', vr. repeat split; try assumption.
+  rewrite lookup_update_other; [exact H3|]. intros ->. congruence.
+Qed.
+
+Lemma in_evaluating_other l x evs rest :
+  (forall e, In e evs -> ev_label e = l) -> x <> l ->
+  (In (EEvaluating x) (evs ++ rest) <-> In (EEvaluating x) rest).
+Proof.
+  intros Hlab Hne. split; [|intros H; apply in_or_app; right; exact H].
+  intros H. apply in_app_or in H. destruct H as [H|H]; [|exact H].
+  exfalso. apply Hne. exact (Hlab _ H).
+Qed.
+
+Lemma eval1_psim c pr w sd sr l :
+  c_dry c = false -> c_crashed c = false -> link_ok pr = true -> gens_unique pr -> w_proj w = pr ->
+  psim pr w sd sr ->
+  (forall v, lookup l (b_vis (eval1 c sr l)) = Some v -> v_res v = ROk) ->
+  psim pr w (eval1 (dry_of c) sd l) (eval1 c sr l).
+Proof.
+  intros Hdry Hcr Hlink Hgu Hwpr P Hok.
+  destruct (lookup l (b_vis sr)) as [v0|] eqn:Hlr.
+  { assert (Hld : lookup l (b_vis sd) <> None).
+    { intros E. apply (ps_dom _ _ _ _ P l) in E. congruence. }
+    destruct (lookup l (b_vis sd)) as [vd0|] eqn:Hld'; [|contradiction].
+    rewrite (eval1_visited _ _ _ _ Hlr), (eval1_visited _ _ _ _ Hld'). exact P. }
+  assert (Hld : lookup l (b_vis sd) = None) by (apply (ps_dom _ _ _ _ P l); exact Hlr).
+  revert Hok. unfold eval1. rewrite Hlr, Hld, (ps_wd _ _ _ _ P), (ps_pr _ _ _ _ P), Hwpr.
+  destruct (lookup l pr) as [d|] eqn:Hd.
+  2:{ intros Hok. exfalso. unfold finish in Hok; cbn [b_vis] in Hok.
+      specialize (Hok _ (lookup_update_same l _ (b_vis sr))). simpl in Hok. discriminate. }
+  pose proof (dep_visits_dom pr w sd sr (deps_of pr d) P) as Hdom.
+  destruct (dep_visits (b_vis sd) (deps_of pr d)) as [vsd|] eqn:Hvsd;
+    destruct (dep_visits (b_vis sr) (deps_of pr d)) as [vsr|] eqn:Hvsr.
+  2:{ destruct Hdom as [_ Hx]. specialize (Hx eq_refl). discriminate. }
+  2:{ destruct Hdom as [Hx _]. specialize (Hx eq_refl). discriminate. }
+  2:{ intros _. destruct P. constructor; cbn [b_w b_vis b_events b_bad]; try assumption. reflexivity. }
+  destruct (dep_visits_psim pr w sd sr _ _ _ P Hvsd Hvsr) as (Ffd & Ffr & Hdu).
+  rewrite (ps_rec _ _ _ _ P l Hlr).
+  set (r := rec_of w l).
+  destruct (step_target (dry_of c) w l d r vsd) as [[[wd' vd] ed] rand] eqn:Hsd.
+  destruct (step_target c (b_w sr) l d r vsr) as [[[wr' vr] er] ranr] eqn:Hsr.
+  intros Hok.
+  assert (Hokr : v_res vr = ROk).
+  { apply Hok. unfold finish; cbn [b_vis]. apply lookup_update_same. }
+  pose proof (step_target_shape _ _ _ _ _ _ _ _ _ _ Hsd) as Shd.
+  pose proof (step_target_shape _ _ _ _ _ _ _ _ _ _ Hsr) as Shr.
+  pose proof (shape_labels _ _ _ Shd) as Labd. pose proof (shape_labels _ _ _ Shr) as Labr.
+  destruct (step_target_frame _ _ _ _ _ _ _ _ _ _ Hsr) as (Fproj & Frec & Ffiles).
+  (* the two runs take the same decision *)
+  assert (Hcond : skip_cond (dry_of c) w d r vsd = skip_cond c (b_w sr) d r vsr).
+  { unfold skip_cond. cbn [dry_of c_always]. rewrite (Hdu r).
+    destruct (deps_up_to_date r vsr) eqn:Hdur; [|rewrite !andb_false_r; reflexivity].
+    assert (Hunch : forall dl vd0, In (dl, vd0) vsr -> v_changed vd0 = false).
+    { intros dl vd0 Hin. unfold deps_up_to_date in Hdur. rewrite forallb_forall in Hdur.
+      specialize (Hdur (dl, vd0) Hin). cbn [fst snd] in Hdur.
+      destruct (lookup dl (r_deps r)); [|discriminate].
+      apply andb_prop in Hdur. destruct Hdur as [_ Hn]. apply negb_true_iff in Hn. exact Hn. }
+    rewrite (up_to_date_psim pr w sd sr l d vsr P Hlink Hgu Hd Hlr Hvsr Hunch). reflexivity. }
+  destruct (step_target_cases (dry_of c) w l d r vsd wd' vd ed rand eq_refl Ffd Hsd)
+    as [(Cd & -> & -> & ->)|(Cd & Evd & Dryd & _)];
+  destruct (step_target_cases c (b_w sr) l d r vsr wr' vr er ranr Hcr Ffr Hsr)
+    as [(Cr & -> & -> & ->)|(Cr & Evr & _ & Chr)]; try congruence.
+  - (* both up to date *)
+    unfold finish. destruct P as [P1 P2 P3 P4 P5 P6 P7 P8].
+    constructor; cbn [b_w b_vis b_events b_bad]; try assumption.
+    + intros x. destruct (N.eq_dec x l) as [->|Hne].
+      * rewrite !lookup_update_same. split; discriminate.
+      * rewrite !(lookup_update_other _ _ _ _ Hne). apply P3.
+    + intros x vdx vrx. destruct (N.eq_dec x l) as [->|Hne].
+      * rewrite !lookup_update_same. intros E1 E2. inversion E1; inversion E2; subst. repeat split.
+      * rewrite !(lookup_update_other _ _ _ _ Hne). apply P4.
+    + intros x Hx. apply P5. destruct (N.eq_dec x l) as [->|Hne];
+        [rewrite lookup_update_same in Hx; discriminate|rewrite (lookup_update_other _ _ _ _ Hne) in Hx; exact Hx].
+    + intros p. destruct (P6 p) as [E|Wit]; [left; exact E|right; apply psim_witness_persist; assumption].
+    + intros x. simpl. split; (intros [E|H]; [discriminate|right; apply P7; exact H]) || idtac.
+      split; intros [E|H]; try discriminate; right; apply P7; exact H.
+  - (* both evaluate *)
+    destruct (Dryd eq_refl) as [-> ->].
+    specialize (Chr Hokr).
+    unfold finish. destruct P as [P1 P2 P3 P4 P5 P6 P7 P8].
+    constructor; cbn [b_w b_vis b_events b_bad]; try assumption.
+    + rewrite Fproj. exact P2.
+    + intros x. destruct (N.eq_dec x l) as [->|Hne].
+      * rewrite !lookup_update_same. split; discriminate.
+      * rewrite !(lookup_update_other _ _ _ _ Hne). apply P3.
+    + intros x vdx vrx. destruct (N.eq_dec x l) as [->|Hne].
+      * rewrite !lookup_update_same. intros E1 E2. inversion E1; inversion E2; subst.
+        cbn [v_res v_changed]. split; [reflexivity|split; [exact Hokr|split; [symmetry; exact Chr|discriminate]]].
+      * rewrite !(lookup_update_other _ _ _ _ Hne). apply P4.
+    + intros x Hx. destruct (N.eq_dec x l) as [->|Hne]; [rewrite lookup_update_same in Hx; discriminate|].
+      rewrite (lookup_update_other _ _ _ _ Hne) in Hx. rewrite (Frec x Hne). apply P5. exact Hx.
+    + intros p. destruct (Ffiles p) as [E|[Hmem _]].
+      * rewrite E. destruct (P6 p) as [E'|Wit]; [left; exact E'|right; apply psim_witness_persist; assumption].
+      * right. exists l, d, vr. repeat split; try assumption. apply lookup_update_same.
+    + intros x. destruct (N.eq_dec x l) as [->|Hne].
+      * split; intros _; apply in_or_app; left; assumption.
+      * rewrite (in_evaluating_other l x ed _ Labd Hne), (in_evaluating_other l x er _ Labr Hne). apply P7.
+Qed.
